@@ -740,7 +740,8 @@ fn expected(f: &Form, canon: &Result<R, String>) -> String {
             other => other.show(),
         },
         Ok(r) => r.show(),
-        Err(c) if checked && (c == "divzero" || c == "underflow") => "none".to_string(),
+        // `custom:`: an explicit panic of the crate whose wording `wire::classify` does not know
+        Err(c) if checked && (c == "divzero" || c == "underflow" || c.starts_with("custom:")) => "none".to_string(),
         Err(c) => format!("panic {}", c),
     }
 }
